@@ -508,6 +508,7 @@ func casings(w string) []string {
 }
 
 func runC02(r *chk.Run) {
+	RunTwoStreamsFirst(r)
 	depth := 4
 	if r.Thorough() {
 		depth = 6
@@ -517,7 +518,23 @@ func runC02(r *chk.Run) {
 	}
 	cfgA := ref.Cfg{Checksum: ref.ChecksumCRC32, RowsV2: true, TableID6: true, ServerID: 5, ServerVer: "5.7.30-log"}
 	cfgB := ref.Cfg{Checksum: ref.ChecksumOff, RowsV2: false, TableID6: false, ServerID: 5, ServerVer: "5.5.62"}
-	hr := newHistRunner(r, "C02", checkGrouping)
+	hr := newHistRunner(r, "C02", func(in HistInput) (string, int, int) {
+		if in.RepositionAt > 0 {
+			return checkReposition(in), 1, 1
+		}
+		return checkGrouping(in)
+	})
+	// the first call loses its connection (also between a BEGIN and its commit),
+	// then the caller re-points the Streamer to any boundary: what is delivered
+	// from there is grouped as a fresh stream groups it
+	for _, cfg := range []ref.Cfg{cfgA, cfgB} {
+		units := []string{UTxXID, UDDL, UAutoRows, UTxCommit, UDDL, UStmtOut}
+		for cut := 3; cut <= 16; cut++ {
+			for k := 0; k <= 6; k++ {
+				hr.add(HistInput{Units: units, Cfg: cfg, LockStep: true, Oracle: "resume", RepositionAt: k + 1, CutAt: cut + 1})
+			}
+		}
+	}
 	// (1) casings of the boundary statements, in every boundary position
 	for _, b := range casings("begin") {
 		hr.add(HistInput{Units: []string{UTxXID, UTxCommit, UDDL}, Cfg: cfgA, Begin: b, LockStep: true})
